@@ -768,17 +768,34 @@ def extract_flags(repo):
         if [a.arg for a in f.args.args] != ["s"]:
             fail(name + ": expected one parameter `s`")
         body = [st for st in f.body if not (isinstance(st, ast.Expr) and isinstance(st.value, ast.Constant))]
+        # leading aliases (`head = s.head`) are substituted; comparisons are written attribute-first
+        local = {}
+        while len(body) > 1 and isinstance(body[0], ast.Assign) and len(body[0].targets) == 1 and isinstance(body[0].targets[0], ast.Name) \
+                and body[0].targets[0].id not in local and body[0].targets[0].id != "s" \
+                and not any(isinstance(n, ast.Call) for n in ast.walk(body[0].value)):
+            local[body[0].targets[0].id] = subst(body[0].value, local)
+            body = body[1:]
         if len(body) != 1 or not isinstance(body[0], ast.Return):
             fail(name + ": expected a single return statement")
-        src = ast.unparse(body[0].value)
+        class Norm(ast.NodeTransformer):
+            def visit_Compare(self, node):
+                self.generic_visit(node)
+                if len(node.ops) == 1 and isinstance(node.ops[0], (ast.Eq, ast.NotEq)) and ast.unparse(node.left).startswith("_ast.") \
+                        and not ast.unparse(node.comparators[0]).startswith("_ast."):
+                    node.left, node.comparators[0] = node.comparators[0], node.left
+                return node
+        ret = Norm().visit(subst(body[0].value, local) if local else body[0].value)
+        src = ast.unparse(ast.fix_missing_locations(ret))
         for k, v in shape:
             src = src.replace(k, v)
+            if " == " in k:
+                src = src.replace(k.replace(" == ", " != "), "(not {})".format(v))
         if "s." in src or "_ast" in src:
             fail(name + ": reads something other than the statement shape: " + src)
         c = ExprC(Env({v: "bool" for _, v in shape[:6]})).expr(ast.parse(src, mode="eval").body)
         if not c[2] or c[1] != "bool":
             fail(name + ": not a pure boolean")
-        return c[0], ast.unparse(body[0].value)
+        return c[0], ast.unparse(ret)
     is_constraint, src_c = classifier("is_constraint")
     is_normal, src_n = classifier("is_normal")
     # visit_Rule must set the two flags from exactly these classifiers
